@@ -107,4 +107,41 @@ func TestLockupProbes(t *testing.T) {
 	fmt.Println("probe5 after DeleteSyntheticLockup:", err, "; synthetic locks left:", len(k.GetAllSyntheticLockups(h.Ctx)), "; accumulation >=0:", acc(sd, 0), ">=10s:", acc(sd, 10*time.Second))
 	k.RebuildSuperfluidAccumulationStoresForDenom(h.Ctx, "foo")
 	fmt.Println("probe5 after RebuildSuperfluidAccumulationStoresForDenom(foo): accumulation >=0:", acc(sd, 0))
+
+	// 6. the accumulation store of a denomination D is the key range "<0x20>D/…", its sum tree lives under "node/<level><key>"
+	// inside it: the tree of an extension denomination D/node/zz… lies INSIDE the range of D's tree
+	h.Reset()
+	k = h.App.LockupKeeper
+	h.Ctx = h.Ctx.WithBlockTime(base)
+	ext := "foo/node/zz"
+	h.FundAcc(a, sdk.NewCoins(sdk.NewInt64Coin("foo", 1000), sdk.NewInt64Coin(ext, 1000)))
+	l, err = k.CreateLock(h.Ctx, a, sdk.NewCoins(sdk.NewInt64Coin("foo", 100)), 10*time.Second)
+	fmt.Println("probe6 lock of 100foo (10s):", l.ID, err, "; accumulation foo >=0:", acc("foo", 0), ">=10s:", acc("foo", 10*time.Second), ">=10s+1:", acc("foo", 10*time.Second+1))
+	l, err = k.CreateLock(h.Ctx, a, sdk.NewCoins(sdk.NewInt64Coin(ext, 7)), 5*time.Second)
+	fmt.Println("probe6 lock of 7"+ext+" (5s):", l.ID, err, "; accumulation foo >=0:", acc("foo", 0), ">=5s:", acc("foo", 5*time.Second), ">=10s:", acc("foo", 10*time.Second), ">=10s+1:", acc("foo", 10*time.Second+1),
+		"; accumulation", ext, ">=0:", acc(ext, 0))
+
+	// 7. RebuildAccumulationStoreForDenom(D) clears the key range "<0x20>D/": every denomination D/… loses its store
+	h.Reset()
+	k = h.App.LockupKeeper
+	h.Ctx = h.Ctx.WithBlockTime(base)
+	ext = "foo/x"
+	h.FundAcc(a, sdk.NewCoins(sdk.NewInt64Coin("foo", 1000), sdk.NewInt64Coin(ext, 1000)))
+	k.CreateLock(h.Ctx, a, sdk.NewCoins(sdk.NewInt64Coin("foo", 100)), 10*time.Second)
+	k.CreateLock(h.Ctx, a, sdk.NewCoins(sdk.NewInt64Coin(ext, 7)), 5*time.Second)
+	fmt.Println("probe7 before rebuild: accumulation foo >=0:", acc("foo", 0), ";", ext, ">=0:", acc(ext, 0))
+	k.RebuildAccumulationStoreForDenom(h.Ctx, "foo")
+	fmt.Println("probe7 after RebuildAccumulationStoreForDenom(foo): accumulation foo >=0:", acc("foo", 0), ";", ext, ">=0:", acc(ext, 0), "(its lock of 7 is still live)")
+
+	// 8. RebuildSuperfluidAccumulationStoresForDenom(D) clears "<0x20>D/super…": a REAL denomination D/superbonding/v1 loses its store
+	h.Reset()
+	k = h.App.LockupKeeper
+	h.Ctx = h.Ctx.WithBlockTime(base)
+	ext = "foo/superbonding/v1"
+	h.FundAcc(a, sdk.NewCoins(sdk.NewInt64Coin("foo", 1000), sdk.NewInt64Coin(ext, 1000)))
+	k.CreateLock(h.Ctx, a, sdk.NewCoins(sdk.NewInt64Coin("foo", 100)), 10*time.Second)
+	k.CreateLock(h.Ctx, a, sdk.NewCoins(sdk.NewInt64Coin(ext, 7)), 5*time.Second)
+	fmt.Println("probe8 before rebuild: accumulation foo >=0:", acc("foo", 0), ";", ext, ">=0:", acc(ext, 0))
+	k.RebuildSuperfluidAccumulationStoresForDenom(h.Ctx, "foo")
+	fmt.Println("probe8 after RebuildSuperfluidAccumulationStoresForDenom(foo): accumulation foo >=0:", acc("foo", 0), ";", ext, ">=0:", acc(ext, 0), "(its lock of 7 is still live)")
 }
